@@ -40,6 +40,12 @@ CHECKS = {
  "C12": dict(cat="model_checking",
    text="Product programs: the same symbolic base is presented twice to the same operator - standard keys 1..M vs 0-based / sparse / descending / shuffled keys, permuted list orders, and table-preserving re-spellings of one position ((A,Top), (B;Bottom), !!A, (B,B)) - and both presentations must give the same answer (and no exception); 7 operator/back-end classes x both modes, N=2,M=2 (thorough N=3,M=3, all M! orders). Found and fixed three key-0 / positional-key defects.",
    ref="3 C12", tech="symbolic execution of a product program (two presentations of one symbolic base) over the real code; assertion over concrete per-path answers"),
+ "C13": dict(cat="model_checking",
+   text="The real InferenceManager.inference (DataFrame plumbing included) is driven symbolically through histories of <=3 calls on ONE manager over symbolic queries: alone / other / repeated, batch then permuted batch with arbitrary integer keys (0, negative, large), duplicate text under two keys, look-alike deep formulas (str() truncation), sequential and with parallel evaluation on a multiprocessing stand-in (fork-isolated workers, any subset declared hung; protocol assertion 'no worker left behind'). Every row must carry its own key/text and the definition's answer for ITS query. One listed known finding (duplicate text -> last key); found and fixed: hung worker recorded under its position, c-inference second call.",
+   ref="3 C13", tech="symbolic execution of call histories on the real manager code with solver and multiprocessing stand-ins; per-row unsat VC against the specification; fault-injection replay with real processes"),
+ "C15": dict(cat="translation_validation",
+   text="Part 1 (genuine stack): for every conditional over the closed set of formulas of depth<=2 over {a,b} (thorough {a,b,c}) and Top/Bottom the real belief_base_to_cnf/query_to_cnf output is validated by two solver queries per CNF (no non-model admitted; every model extends over all non-atom variables) - complete enumeration of the formula set, solver-quantified assignments. Part 2: the real minimal_correction_subsets/get_violated_conditional/exclude_violated/remove_supersets on the RC2 stand-in against 'exactly the minimal falsification sets, each once, none iff hard unsat' for every optimal-model choice, k<=3 soft groups, incl. multi-clause groups and ignore lists.",
+   ref="3 C15", tech="translation validation of the real tactic output with z3 (incl. exists/forall over auxiliaries) + symbolic execution of the real enumeration loop on a nondeterministic MaxSAT stand-in"),
 }
 NA = {
  "C10": "ANTLR-generated parser interpreted by the antlr4 runtime: symbolic inputs are concretised at the first DFA lookup, CrossHair gave an unsound 'Confirmed' (DFA-cache nondeterminism) and no verdict in 8 min for |s|<=3; an SMT model of ALL(*) would be a model of the runtime, not the real code (DESIGN.md 3 C10)",
